@@ -41,7 +41,12 @@ def dumpSrv (s : Srv) : String :=
   let mine := (dedup s.chans []).filter (fun p => s.botIn p.2)
   let vis := (dedup s.users []).filter (fun p => s.visible p.1)
   "N=" ++ enc s.bot ++ " C=" ++ " ".intercalate (sortS (mine.map fun (k, sc) => viewChan k sc)) ++
-    " H=" ++ ",".intercalate (sortS (vis.map fun (k, u) => enc k ++ "=" ++ enc u.mask))
+    " H=" ++ ",".intercalate (sortS (vis.map fun (k, u) => enc k ++ "=" ++ enc u.mask)) ++
+    " T=" ++ encSet s.told.eraseDups ++ " MS=" ++ encSet s.modesSynced.eraseDups ++ " BS=" ++ encSet s.bansSynced.eraseDups ++
+    " Q=" ++ ",".intercalate (s.pending.map fun
+      | .who c => "w" ++ enc c
+      | .mode c => "m" ++ enc c
+      | .bans c => "b" ++ enc c)
 
 def encEv : Ev → String
   | .reset => "R"
@@ -76,6 +81,7 @@ def decAct : List String → Option Act
   | ["who", c] => do pure (.who (← dec c))
   | ["modeis", c] => do pure (.modeis (← dec c))
   | ["banlist", c] => do pure (.banlist (← dec c))
+  | ["serve"] => some .serve
   | ["reconnect"] => some .reconnect
   | _ => none
 
@@ -88,13 +94,19 @@ def excStr : Exc → String
   | .irc => "irc-exc"
   | .state => "state-exc"
 
-/-- feed the events one by one, collecting the bot dump after each -/
-def feedDump (b : Bot) : List Ev → Bot × List String
-  | [] => (b, [])
+def encMsgs (ms : List Msg) : String :=
+  if ms.isEmpty then "-" else ";".intercalate (ms.map fun m => enc m.cmd ++ ":" ++ encList m.args)
+
+/-- feed the events one by one, collecting the bot dump (and what the bot sends) after each -/
+def feedDump (b : Bot) : List Ev → Bot × List String × List Msg
+  | [] => (b, [], [])
   | e :: es =>
+    let out := match e with
+      | .msg m => b.out m
+      | .reset => []
     let b1 := b.recv e
     let r := feedDump b1 es
-    (r.1, dumpBot b1 :: r.2)
+    (r.1, (dumpBot b1 ++ " O=" ++ encMsgs out) :: r.2.1, out ++ r.2.2)
 
 def defaultCfg : Cfg :=
   { server := "irc.srv".toList, multiPrefix := true, uhnames := false, extJoin := false, chghost := true,
@@ -115,14 +127,15 @@ def step (st : DState) : List String → DState × String
     | some a =>
       let r := st.srv.step a
       let fd := feedDump st.bot r.2
-      (⟨r.1, fd.1⟩,
+      let s1 := r.1.enqueue fd.2.2
+      (⟨s1, fd.1⟩,
         (if r.2.isEmpty then "-" else "|".intercalate (r.2.map encEv)) ++ "\t" ++
-        (if fd.2.isEmpty then "-" else "|".intercalate fd.2) ++ "\t" ++ dumpSrv r.1)
+        (if fd.2.1.isEmpty then "-" else "|".intercalate fd.2.1) ++ "\t" ++ dumpSrv s1)
   | ["msg", p, c, a] =>
     match dec p, dec c, decList a with
     | some p, some c, some a =>
       let r := st.bot.feed ⟨p, c, a⟩
-      (⟨st.srv, r.1⟩, excStr r.2 ++ "\t" ++ dumpBot r.1)
+      (⟨st.srv, r.1⟩, excStr r.2 ++ "\t" ++ dumpBot r.1 ++ " O=" ++ encMsgs (st.bot.out ⟨p, c, a⟩))
     | _, _, _ => (st, "bad-op")
   | ["reset"] => (⟨st.srv, st.bot.reset⟩, dumpBot st.bot.reset)
   | ["lower", s] => (st, match dec s with | some s => enc (lower s) | none => "bad-op")
